@@ -21,6 +21,7 @@ PATTERNS = {
     'chiral4': ('CNOF', [[0., 0, 0], [1.4, 0, 0], [0.2, 1.7, 0], [0.3, 0.4, 1.9]]),
     'sym5': ('CHHHH', [[0., 0, 0], [0.63, 0.63, 0.63], [-0.63, -0.63, 0.63], [-0.63, 0.63, -0.63], [0.63, -0.63, -0.63]]),
     'sym3': ('OCO', [[-1.16, 0, 0], [0., 0, 0], [1.16, 0, 0]]),
+    'nearlinear3': ('SCN', [[0., 0, 0], [1.6, 0.04, 0], [2.8, 0, 0]]),
 }
 
 
@@ -65,7 +66,7 @@ def min_image_dist(cell, a, b):
 
 
 def build(cellname, patname, copies, rnd, noise=0.0, decoys=0, mirror_decoys=0, near_miss=0, atol=0.05, straddle=True,
-          pattern_override=None):
+          pattern_override=None, bent=0):
     """Returns dict(structure=Atoms, pattern=Atoms, planted=[index tuples in pattern order], poses=[(rot, trans)])."""
     from mofun import Atoms
     cell = CELLS[cellname]
@@ -77,7 +78,7 @@ def build(cellname, patname, copies, rnd, noise=0.0, decoys=0, mirror_decoys=0, 
     # well separated centres on a coarse fractional grid; optionally shifted to the faces so that copies straddle them
     grid = [(i / 3.0, j / 3.0, k / 3.0) for i in range(3) for j in range(3) for k in range(3)]
     rnd.shuffle(grid)
-    total = copies + mirror_decoys + near_miss
+    total = copies + mirror_decoys + near_miss + bent
     rots = rotations(rnd, total, include_axis=False)
     for ci in range(total):
         f = np.array(grid[ci])
@@ -92,6 +93,11 @@ def build(cellname, patname, copies, rnd, noise=0.0, decoys=0, mirror_decoys=0, 
         if ci >= copies and ci < copies + mirror_decoys:
             P = P * np.array([1, 1, -1.0])     # mirror image
             kind = 'mirror'
+        elif ci >= copies + mirror_decoys + near_miss:
+            # bent look-alike: the middle atom moves sideways by 0.28 A; interatomic distances change by less than atol
+            P = P.copy()
+            P[1] = P[1] + np.array([0, 0.28, 0])
+            kind = 'bent'
         elif ci >= copies + mirror_decoys:
             P = P.copy()
             P[-1] = P[-1] + np.array([1.5 * atol * 1.7, 0, 0])   # one atom clearly outside tolerance (|d| ~ 2.5 atol)
